@@ -25,6 +25,7 @@ type baseLogger = logging.Logger
 type vLogger struct {
 	baseLogger
 	Errors []string
+	allow  func(string) bool // records a scenario expects (checked in bad, whenever the record arrives)
 }
 
 func newVLogger() *vLogger { return &vLogger{baseLogger: logging.Null} }
@@ -42,6 +43,9 @@ func (l *vLogger) WithFields(kv ...any) logging.Logger { return l }
 func (l *vLogger) bad() []string {
 	var out []string
 	for _, e := range l.Errors {
+		if l.allow != nil && l.allow(e) {
+			continue
+		}
 		out = append(out, e)
 	}
 	return out
